@@ -87,11 +87,17 @@ def _make_classes_once():
     class SenderB(SenderA):
         signals = ["t1"]  # noqa: RUF012
 
+    class SenderC(SenderB):  # third level with its own names: s1/s2 come from the grandparent
+        signals = ["u1"]  # noqa: RUF012
+
+    class SenderD(SenderB):  # third level without names of its own
+        pass
+
     class Unregistered:
         def __init__(self, sid):
             self.sid = sid
 
-    return SenderA, SenderB, Unregistered
+    return SenderA, SenderB, SenderC, SenderD, Unregistered
 
 
 class _Entry:
@@ -130,15 +136,19 @@ class _Run:
         from urwid import signals  # noqa: PLC0415
 
         self.sig = signals
-        A, B, U = _make_classes()
-        self.classes = [A, B]
+        A, B, C, D, U = _make_classes()
+        self.classes = [A, B, C, D]
+        names_of = {A: ["s1", "s2"], B: ["t1", "s1", "s2"], C: ["s1", "u1", "t1", "s2"], D: ["s2", "t1", "s1"]}
+        order = cfg.get("sender_classes") or [0, 1]
         self.senders = []
         self.sender_names = []
         for i in range(cfg["senders"]):
-            cls = self.classes[i % 2]
+            cls = self.classes[order[i % len(order)] % 4]
             falsy = cfg.get("sender_empty", [])
             self.senders.append(cls(i, 0 if i < len(falsy) and falsy[i] else 1))
-            self.sender_names.append(["s1", "s2"] if cls is A else ["t1", "s1", "s2"])
+            self.sender_names.append(names_of[cls])
+            if cls in (C, D):
+                res.probe("sender_three_levels_deep")
         self.sender_wr = [weakref.ref(s) for s in self.senders]
         self.unreg = U(99)
         self.handlers = [_Handler(self, i) for i in range(cfg["handlers"])]
@@ -564,6 +574,7 @@ class SignalsEngine(Engine):
         "weak_died_inside_emit",
         "falsy_weak_argument",
         "falsy_sender",
+        "sender_three_levels_deep",
         "weak_died_inside_connect",
         "disconnect_during_emit",
         "earlier_or_self_disconnect_with_later_present",
@@ -585,6 +596,7 @@ class SignalsEngine(Engine):
             "weak_cyclic": [rng.random() < 0.5 for _ in range(n_w)],
             "weak_kind": [rng.choice([0, 0, 0, 1, 2]) for _ in range(n_w)],
             "sender_empty": [rng.random() < 0.15 for _ in range(n_s)],
+            "sender_classes": [rng.randrange(4) for _ in range(n_s)],
         }
         ops = []
         n_ops = rng.randint(1, 25)
